@@ -130,6 +130,10 @@ pub struct Case {
     /// schedule decisions are always re-derived from the seed; see DESIGN 2.11
     #[serde(default)]
     pub note: String,
+    /// serve the HTTP API too and route a seeded share of the administrator's catalogue commands through
+    /// the real SDK `HttpClient` and the real axum router (hook H8)
+    #[serde(default)]
+    pub http_arm: bool,
 }
 
 impl Case {
